@@ -11,7 +11,8 @@ RULE = ('(i) the message sequences of C08 (exhaustive to length 2/3 + random, 7 
         'reconnect(host, policy port, verification forced) and nothing is stored; a policy is stored only on a verified link; '
         '(ii) ServersMixin._applyStsPolicy on the real networks store for policy strings x stored ages x disconnect histories x clocks; '
         '(ii-b) histories of store-policy / record-disconnection / _getNextServer / restart (networks.conf flushed and re-read with a fresh '
-        'NetworksDictionary; oracle against the policies the server side stored, not the bot\'s store) events on a real ServersMixin with several entries and repeated '
+        'NetworksDictionary; oracle against the policies the server side stored, not the bot\'s store) / connect (the real SocketDriver.connect() '
+        'over a fake socket and TLS layer: dialled port, TLS started, verify argument) events on a real SocketDriver with several entries and repeated '
         'hostnames, every step replayed on the model, every returned server checked against the store; '
         '(iii) SocketDriver.starttls verification choice for all 16 settings.  non-trivial = distinct step / store state')
 TRUSTED = c08.TRUSTED + ['the TLS handshake (utils.net.ssl_wrap_socket) is not modelled: only the `verify` argument it is called with',
@@ -193,6 +194,10 @@ def run_apply(ctx, mods):
 MIX_HOSTS = ['irc.example.org', 'Alt.Example.NET', 'IRC.Example.Org', 'alt.example.net']
 MIX_POLS = ['port=6697,duration=300', 'duration=100,port=7000', 'port=6697,duration=0', 'port=1,duration=1000000', 'port=x,duration=3']
 MIX_CORPUS = [
+    # the real connect path: a stored policy, the next configured entry (attempt None), ssl off / on, nothing else configured
+    {'conf': [['irc.example.org', 6667]],
+     'evs': [[4, 1000, False, False, False, False], [0, 'irc.example.org', 'port=6697,duration=3600'], [1, 1010, 'irc.example.org'],
+             [4, 1020, False, False, False, False], [4, 1030, True, False, False, False], [3], [4, 1040, False, False, True, False], [4, 9000, False, False, False, False]]},
     # configured hostnames with capitals: the policy is stored and looked up under the hostname as configured
     {'conf': [['Irc.Example.Org', 6667], ['Irc.Example.Org', 8000]],
      'evs': [[2, 1000], [0, 'Irc.Example.Org', 'port=6697,duration=300'], [1, 1010, 'Irc.Example.Org'], [2, 1020], [3], [2, 1030], [2, 1400]]},
@@ -224,6 +229,8 @@ def gen_mix(rng):
             evs.append([1, now, rng.choice(MIX_HOSTS)])
         elif r < 0.55:
             evs.append([3])
+        elif r < 0.75:
+            evs.append([4, now, rng.random() < 0.4, rng.random() < 0.25, rng.random() < 0.2, rng.random() < 0.15])
         else:
             evs.append([2, now])
     return {'conf': conf, 'evs': evs}
@@ -231,25 +238,67 @@ def gen_mix(rng):
 
 def run_mixin_history(ctx, mods, h, model=True):
     """drive a real ServersMixin + the real networks store through the history (events: 0 store a policy, 1 record a disconnection,
-    2 _getNextServer, 3 restart = flush networks.conf, read it back with a fresh NetworksDictionary, new ServersMixin);
+    2 _getNextServer, 3 restart = flush networks.conf, read it back with a fresh NetworksDictionary, new driver,
+    4 [now, ssl, verifyCertificates, fingerprints, authority] = the real SocketDriver.connect() over a fake socket / TLS layer);
     returns (steps for the model diff, failures)"""
     import os, tempfile
     irclib, conf, ircmsgs, ircutils, ircdb, drivers = mods
     nd = ircdb.networks
     saved_nd = (nd.networks, nd.filename, nd.noFlush)
     saved_time = (drivers.time.time, ircdb.time.time)
-    wconf = [[hh, pp, 0, False] for hh, pp in h['conf']]
+    import supybot.drivers.Socket as Socket
+    import supybot.utils as utils
+    wconf = [[hh, pp, -1, False] for hh, pp in h['conf']]          # configured entries have attempt = None (-1 on the wire)
+    att = lambda a: -1 if a is None else a
+    netc = conf.supybot.networks.get('test')
+    saved_tls = (conf.supybot.protocols.ssl.verifyCertificates(), netc.ssl.serverFingerprints(), netc.ssl.authorityCertificate(), netc.ssl(),
+                 utils.net.ssl_wrap_socket, utils.net.getSocket, utils.net.getAddressFromHostname)
+    seen = {}
+
+    class FakeSock:
+        _closed = False
+
+        def settimeout(self, t):
+            pass
+
+        def connect(self, addr):
+            seen['addr'] = addr
+
+        def close(self):
+            pass
+
+        def shutdown(self, how):
+            pass
+
+        def fileno(self):
+            return 7
+
+    def fake_wrap(conn, **kw):
+        seen['tls'] = True
+        seen['verify'] = bool(kw.get('verify'))
+        seen['tls_hostname'] = kw.get('hostname')
+        return conn
     tmpdir = tempfile.mkdtemp(prefix='nets_', dir=os.getcwd())
 
     class Group:
         _name = 'supybot.networks.test'
 
         def servers(self):
-            return [drivers.Server(hh, pp, 0, False) for hh, pp in h['conf']]
+            return [drivers.Server(hh, pp, None, False) for hh, pp in h['conf']]       # as conf.Servers.convert builds them
+
+    class FakeIrc:
+        network = 'test'
+        zombie = False
+
+        def reset(self):
+            pass
 
     def new_mixin():
-        m = drivers.ServersMixin.__new__(drivers.ServersMixin)
-        m.networkName, m.networkGroup, m.servers = 'test', Group(), []
+        # a real SocketDriver (it is the ServersMixin), built without running __init__ (which would connect)
+        m = Socket.SocketDriver.__new__(Socket.SocketDriver)
+        m.irc, m.networkName, m.networkGroup, m.servers = FakeIrc(), 'test', Group(), []
+        m.conn, m._attempt, m.eagains, m.inbuffer, m.outbuffer = None, -1, 0, b'', b''
+        m.zombie, m.connected, m.writeCheckTime, m.nextReconnectTime, m.currentDelay, m.ssl = False, False, None, None, 10.0, False
         return m
     box = {'mixin': new_mixin()}
     steps, fails = [], []
@@ -263,11 +312,13 @@ def run_mixin_history(ctx, mods, h, model=True):
         mixin = box['mixin']
         cur = getattr(mixin, 'currentServer', None)
         return ([[[k, v] for k, v in net().stsPolicies.items()], [[k, v] for k, v in net().lastDisconnectTimes.items()]],
-                [[[x.hostname, x.port, x.attempt, bool(x.force_tls_verification)] for x in mixin.servers],
-                 wire.opt(None if cur is None else [cur.hostname, cur.port, cur.attempt, bool(cur.force_tls_verification)])])
+                [[[x.hostname, x.port, att(x.attempt), bool(x.force_tls_verification)] for x in mixin.servers],
+                 wire.opt(None if cur is None else [cur.hostname, cur.port, att(cur.attempt), bool(cur.force_tls_verification)])])
     try:
         nd.networks = ircutils.IrcDict()
         nd.filename, nd.noFlush = os.path.join(tmpdir, 'networks.conf'), False
+        utils.net.ssl_wrap_socket, utils.net.getSocket = fake_wrap, (lambda *a, **k: FakeSock())
+        utils.net.getAddressFromHostname = lambda hostname, attempt=0: '192.0.2.7'
         for i, e in enumerate(h['evs']):
             bnet, bmix = snap()
             res = None
@@ -285,11 +336,46 @@ def run_mixin_history(ctx, mods, h, model=True):
                 fresh.open(nd.filename)
                 nd.networks = fresh.networks
                 box['mixin'] = new_mixin()
+            elif e[0] == 4:
+                drivers.time.time = lambda t=e[1]: t
+                netc.ssl.setValue(bool(e[2]))
+                conf.supybot.protocols.ssl.verifyCertificates.setValue(bool(e[3]))
+                netc.ssl.serverFingerprints.setValue(['AA' * 32] if e[4] else [])
+                netc.ssl.authorityCertificate.setValue('/etc/ssl/ca.pem' if e[5] else '')
+                d = box['mixin']
+                drv_before = d._attempt
+                seen.clear()
+                try:
+                    d.connect()
+                    cs = d.currentServer
+                    res = ('ok', [[cs.hostname, cs.port, att(cs.attempt), bool(cs.force_tls_verification)], bool(seen.get('tls')), bool(seen.get('verify'))])
+                except Exception as ex:
+                    res = ('raise', type(ex).__name__)
+                finally:
+                    conf.supybot.drivers.poll.removeCallback(d.setTimeout)
+                    if d in Socket.SocketDriver._instances:
+                        Socket.SocketDriver._instances.remove(d)
+                    d.connected = False
+                e = list(e) + [drv_before]
+                # the property, directly: an unexpired stored policy => its port, over TLS, certificate verified
+                if res[0] == 'ok':
+                    host = res[1][0][0]
+                    pol, last = exp_pol.get(host), exp_last.get(host)
+                    rp = ref_policy(pol, True) if pol is not None else None
+                    if rp is not None and last is not None and last + rp[1] < e[1]:
+                        del exp_pol[host]
+                    elif rp is not None:
+                        dialled = seen.get('addr', (None, None))[1]
+                        if dialled != rp[0] or not res[1][1] or not (res[1][2] or e[4] or e[5]):
+                            fails.append({'step': i, 'kind': 'sts-connection-not-verified',
+                                          'detail': 'connect() with the policy %r stored for %s (last disconnection %r, clock %r): dialled port %r, '
+                                                    'TLS started: %r, verify=%r (fingerprints %r, CA %r), currentServer %r'
+                                                    % (pol, host, last, e[1], dialled, res[1][1], res[1][2], bool(e[4]), bool(e[5]), res[1][0])})
             else:
                 drivers.time.time = lambda t=e[1]: t
                 try:
                     r = box['mixin']._getNextServer()
-                    res = ('ok', [r.hostname, r.port, r.attempt, bool(r.force_tls_verification)])
+                    res = ('ok', [r.hostname, r.port, att(r.attempt), bool(r.force_tls_verification)])
                 except Exception as ex:
                     res = ('raise', type(ex).__name__)
                 # the property, directly: an unexpired stored policy for the host of the returned server => its port, verification forced
@@ -308,6 +394,11 @@ def run_mixin_history(ctx, mods, h, model=True):
     finally:
         nd.networks, nd.filename, nd.noFlush = saved_nd
         drivers.time.time, ircdb.time.time = saved_time
+        conf.supybot.protocols.ssl.verifyCertificates.setValue(saved_tls[0])
+        netc.ssl.serverFingerprints.setValue(saved_tls[1])
+        netc.ssl.authorityCertificate.setValue(saved_tls[2])
+        netc.ssl.setValue(saved_tls[3])
+        utils.net.ssl_wrap_socket, utils.net.getSocket, utils.net.getAddressFromHostname = saved_tls[4:7]
         import shutil
         shutil.rmtree(tmpdir, True)
     return steps, fails
@@ -321,16 +412,20 @@ def run_mixin(ctx, mods):
         for f in fails:
             ctx.fail(dict({k: v for k, v in f.items() if k != 'detail'}, mix=h), f['detail'])
         allsteps += [(h, st) for st in steps]
-    outs = ctx.model([[4, [w, bn, bm, e]] for h, (w, bn, bm, e, an, am, res) in allsteps])
+    outs = ctx.model([[20, [w, bn, bm, e[1], e[6], e[2], e[3], e[4], e[5]]] if e[0] == 4 else [4, [w, bn, bm, e]]
+                      for h, (w, bn, bm, e, an, am, res) in allsteps])
     for (h, (w, bn, bm, e, an, am, res)), mo in zip(allsteps, outs):
         inp = {'mix': {'conf': h['conf']}, 'net': bn, 'mixin': bm, 'event': e}
-        ctx.case('servers-%s' % ['store', 'disconnect', 'next', 'restart'][e[0]], inp)
+        ctx.case('servers-%s' % ['store', 'disconnect', 'next', 'restart', 'connect'][e[0]], inp)
         if mo is None:
             continue
         sv = lambda v: [wire.s(v[0]), v[1], v[2], bool(v[3])]
         mnet = [[[wire.s(x[0]), wire.s(x[1])] for x in mo[0][0]], [[wire.s(x[0]), x[1]] for x in mo[0][1]]]
         mmix = [[sv(x) for x in mo[1][0]], wire.opt(wire.o(mo[1][1], sv))]
-        mres = wire.o(mo[2], lambda v: wire.r(v, sv))
+        if e[0] == 4:
+            mres = wire.r(mo[2], lambda v: [sv(v[0]), bool(v[1]), bool(v[2])])
+        else:
+            mres = wire.o(mo[2], lambda v: wire.r(v, sv))
         if [sorted(x) for x in mnet] != [sorted(x) for x in an] or mmix != am or mres != res:      # a restart re-reads the store in file (sorted) order
             ctx.disagree(inp, [mnet, mmix, mres], [an, am, res], 'ServersMixin / store step')
 
